@@ -16,11 +16,11 @@ rm -rf "$M/with/.git"
 (cd "$M/with" && go build ./...) || { echo "$P-$X: DOES-NOT-COMPILE"; exit 3; }
 base="pass"; python3 "$V/tools/baseline.py" "$M/with" >"$M/base.log" 2>&1 || base="FAILS-BASELINE"
 demo="$IN/${X}_demo_test.go"; dir="$(head -1 "$demo" | sed -n 's|^// *copy to: *\([^ ]*\).*|\1|p')"; dir="${dir%/}"; [ -n "$dir" ] || dir="."
-tname="$(grep -o 'func Test[A-Za-z0-9_]*' "$demo" | head -1 | sed 's/func //')"
+tname="TestDemo"
 cp "$demo" "$M/with/$dir/zz_demo_test.go"; cp "$demo" "$M/without/$dir/zz_demo_test.go"
 race=""; grep -q 'go test -race\|requires -race\|-race' "$IN/NOTES.md" 2>/dev/null && [ "$P" = C18 ] && race="-race"
-(cd "$M/with" && go test $race -vet=off -count=1 -run "^$tname\$" "./$dir/" >"$M/demo_with.log" 2>&1); dw=$?
-(cd "$M/without" && go test $race -vet=off -count=1 -run "^$tname\$" "./$dir/" >"$M/demo_without.log" 2>&1); dwo=$?
+(cd "$M/with" && go test $race -vet=off -count=1 -run "^$tname" "./$dir/" >"$M/demo_with.log" 2>&1); dw=$?
+(cd "$M/without" && go test $race -vet=off -count=1 -run "^$tname" "./$dir/" >"$M/demo_without.log" 2>&1); dwo=$?
 rm -f "$M/with/$dir/zz_demo_test.go"
 out="$(VERIF_REPO="$M/with" VERIF_BUDGET_S="${VERIF_BUDGET_S:-120}" "$V/run.sh" "$P" "$TIER" 2>&1)"; code=$?
 viol="$(echo "$out" | grep -m1 '^minimised' | cut -c1-300)"; [ -n "$viol" ] || viol="$(echo "$out" | grep -m1 'violation\|VIOLATION\|returned' | cut -c1-300)"
